@@ -2,7 +2,9 @@ package gbn
 
 import (
 	"context"
+	"fmt"
 	"io"
+	"math"
 	"time"
 )
 
@@ -139,6 +141,14 @@ handshakeLoop:
 
 		g.log.Debugf("Received client SYN. Sending back.")
 		n = msg.(*PacketSYN).N
+
+		// The window size is chosen by the client but it must be one
+		// that the protocol can represent: the sequence space n+1 must
+		// fit into a uint8 and the window must hold at least one packet.
+		if n == 0 || n == math.MaxUint8 {
+			return fmt.Errorf("client proposed invalid window size %d",
+				n)
+		}
 
 		// Send SYN back
 		syn := &PacketSYN{N: n}
